@@ -176,3 +176,6 @@ def run(ctx, R):
             if f:
                 unchanged_fields(R, 'C10.F', p, 'set_length', f, s, except_=('length',))
     R.floor('method x pre-state transformers checked', total, 20)
+    # the contract used above for generic payloads (writer := old ++ enc(x)) and the Writer it rests on, re-evaluated for every payload kind
+    from rules import C20 as C20mod
+    C20mod.all_encoders(ctx, R)
